@@ -180,7 +180,8 @@ func (ss *Sorts) isTransparentPkg(p *types.Package) bool {
 	if p == nil {
 		return false
 	}
-	return strings.HasPrefix(p.Path(), "github.com/formancehq/ledger")
+	return strings.HasPrefix(p.Path(), "github.com/formancehq/ledger") ||
+		p.Path() == "github.com/formancehq/go-libs/v5/pkg/storage/bun/paginate"
 }
 
 // Of returns the SMT sort of a Go type.
